@@ -213,6 +213,11 @@ def gen(tier, idx):
                 ops.append(['copy', h, nh]); nh += 1
         elif op == 'eq': ops.append(['eq', h, r.randrange(nh)])
         if cached and r.random() < 0.15: ops.append([r.choice(['dump', 'load']), r.randrange(nh)])
+    if (idx // len(CONFIGS)) % 2 == 1 and keys:
+        # stratum: a stored value overwritten by one that is == to it but of another type (1 -> True; by assignment and by update): the
+        # archive holds what was stored last, to the type
+        k0 = keys[0]; at = r.randrange(len(ops) + 1)
+        ops[at:at] = [['setitem', 0, k0, 1], ['getitem', 0, k0], [["setitem", 0, k0, True], ["update", 0, [[k0, True]]]][(idx // (2 * len(CONFIGS))) % 2], ['getitem', 0, k0], ['gettype', 0, k0, True], ['items', 0]]
     seed = []
     if kind != 'null' and r.random() < 0.4 and good:
         for k in r.sample(keys, min(len(keys), r.choice([1, 2]))): seed.append([k, r.choice(good)])
@@ -333,6 +338,12 @@ def run_trace(cfg, ops):
                     line.update(k=kj(op[2])); del H[op[2]]; out = dict(o='unit')
                 elif kind == 'contains':
                     line.update(k=kj(op[2])); out = dict(o='bool', v=bool(op[2] in H))
+                elif kind == 'gettype':
+                    # (monitor only) the stored value to the TYPE: what was stored last is a bool, not the ==-equal int stored before it
+                    line = None
+                    if cfg['kind'] == 'null' or hand[hi] is not arch[hi]: continue
+                    want = type(oracle_readback(cfg['codec'], cfg['opts'], op[3])).__name__
+                    out = dict(o='gettype', got=type(H[op[2]]).__name__, want=want, k=repr(op[2]))
                 elif kind == 'len': out = dict(o='nat', v=len(H))
                 elif kind == 'iter': line['op'] = 'keys'; out = dict(o='keys', v=sorted(kcanon(k) for k in iter(H)))
                 elif kind == 'keys': out = dict(o='keys', v=sorted(kcanon(k) for k in H.keys()))
@@ -493,6 +504,9 @@ def monitor(tr):
                 return [dict(prop='C03', i=rec['i'], sig=dict(backend=cfg['kind'], codec=cfg['codec'], cause='none', what='eq-same-basename', op='eq'),
                              msg='%s archive: a copy made under the same base name in another directory, then given one more entry: '
                                  '(a==copy, copy==a, a!=copy) before and after the extra entry gave %r, a dict gives [True, True, False, False, False, True]' % (cfg['kind'], out['sib']))]
+            if out.get('o') == 'gettype' and out['got'] != out['want']:
+                return [dict(prop='C03', i=rec['i'], sig=dict(backend=cfg['kind'], codec=cfg['codec'], cause='none', what='overwrite-by-an-equal-value-of-another-type', op='setitem'),
+                             msg='%s archive (%s): key %s was assigned 1 and then True; it now holds a %s, a dict holds a %s' % (cfg['kind'], cfg['codec'], out['k'], out['got'], out['want']))]
             if out.get('o') == 'copyonto' and not out['ok']:
                 return [dict(prop='C03', i=rec['i'], sig=dict(backend=cfg['kind'], codec=cfg['codec'], cause='none', what='copy-onto-existing', op='copy'),
                              msg='%s archive: copy(name) onto a name that already holds an archive %s; the target then holds %r, expected %r (the source when it returns, the untouched target when it refuses)' % (
